@@ -28,12 +28,61 @@ NEGATE = {"lt": "ge", "le": "gt", "gt": "le", "ge": "lt"}
 _ACC = {}   # atom id -> variable name, for the loop-carried numeric placeholders of the outcome being looked at
 
 
+_PH_FIELD = {}   # "name.field" -> Num(placeholder atom) for the numeric fields of loop-carried RECORDS (best = Candidate(curve, loss))
+
+
+def _is_record(cls) -> bool:
+    return bool(getattr(cls, "is_namedtuple", False) or getattr(cls, "is_attrs", False))
+
+
 def _register(out):
     _ACC.clear()
+    _PH_FIELD.clear()
+    recs = {}
     for lr in out.loops:
         for name, ph in getattr(lr, "placeholders", {}).items():
             if isinstance(ph, Num) and ph.r.single_atom() is not None:
                 _ACC[ph.r.single_atom().id] = name
+            elif isinstance(ph, ObjV) and not ph.constructed and ph.path and _is_record(ph.cls):
+                recs[ph.path] = (name, {f.name for f in ph.cls.fields})
+    if recs:
+        # a carried record is a bundle of carried variables: its numeric fields, as they occur in the path's decisions
+        def walk(k):
+            if isinstance(k, Rat):
+                for i in k.deps():
+                    a = poly.T.get(i)
+                    if a.kind == "sym":
+                        for path, (name, fields) in recs.items():
+                            if a.name.startswith(path + ".") and a.name[len(path) + 1:] in fields:
+                                fy = "%s.%s" % (name, a.name[len(path) + 1:])
+                                _ACC[a.id] = fy
+                                _PH_FIELD[fy] = Num(Rat.atom(a))
+            elif isinstance(k, tuple):
+                for x in k:
+                    walk(x)
+        for c, _d in out.trace:
+            walk(c)
+
+
+def flat_after(lr):
+    """name -> (value after the iteration, left unchanged?) for the loop's variables, carried records expanded field by field."""
+    after_all = dict(getattr(lr, "local_after", {}))
+    after_all.update(lr.carried_after)
+    res = {}
+    for y, v in after_all.items():
+        ph = lr.placeholders.get(y)
+        un = v is ph or v is getattr(lr, "local_before", {}).get(y)
+        if isinstance(ph, ObjV) and not ph.constructed and _is_record(ph.cls) and (un or (isinstance(v, ObjV) and v.constructed and v.cls is ph.cls)):
+            for fl in ph.cls.fields:
+                fy = "%s.%s" % (y, fl.name)
+                if un:
+                    res[fy] = (_PH_FIELD.get(fy), True)
+                else:
+                    fv = v.fields.get(fl.name)
+                    res[fy] = (fv, isinstance(fv, Num) and _acc_name(fv.r) == fy)
+            continue
+        res[y] = (v, un)
+    return res
 
 
 def _acc_name(r: Rat) -> Optional[str]:
@@ -100,7 +149,7 @@ class SymbolicSelection:
 
     def loop_of(self, name):
         """Innermost loop record that carries the accumulator."""
-        cands = [lr for lr in self.out.loops if lr.kind == "for" and name in getattr(lr, "carried_after", {})]
+        cands = [lr for lr in self.out.loops if lr.kind == "for" and name.split(".")[0] in getattr(lr, "carried_after", {})]
         return cands[-1] if cands else None
 
 
@@ -155,9 +204,7 @@ def check_symbolic(ck, f, outs, data_param, data_len: Rat, suffixes, grid=None):
     y_names = set()
 
     def unchanged_names(lr):
-        after_all = dict(getattr(lr, "local_after", {}))
-        after_all.update(lr.carried_after)
-        return {y for y, v in after_all.items() if v is lr.placeholders.get(y) or v is getattr(lr, "local_before", {}).get(y)}
+        return {y for y, (v, un) in flat_after(lr).items() if un}
     # names a losing candidate leaves alone (per loop): the accumulators are among them; per-iteration temporaries are not
     stable = {}
     for o in outs:
@@ -168,7 +215,7 @@ def check_symbolic(ck, f, outs, data_param, data_len: Rat, suffixes, grid=None):
             lr = ss.loop_of(xname)
             if lr is None:
                 continue
-            after = lr.carried_after.get(xname)
+            after = flat_after(lr).get(xname, (None, False))[0]
             if isinstance(after, Num) and _acc_name(after.r) == xname:
                 k = lr.node.lineno
                 u = unchanged_names(lr)
@@ -183,7 +230,8 @@ def check_symbolic(ck, f, outs, data_param, data_len: Rat, suffixes, grid=None):
                 continue
             n_dec += 1
             rel = op if tk else NEGATE[op]
-            after = lr.carried_after.get(xname)
+            fa = flat_after(lr)
+            after = fa.get(xname, (None, False))[0]
             updated = not (isinstance(after, Num) and _acc_name(after.r) == xname)
             loc = f.loc(lr.node)
             ck.ob("P3", fq, "a candidate replaces the best only when its loss is smaller (or equal), and is kept out otherwise", loc,
@@ -194,10 +242,8 @@ def check_symbolic(ck, f, outs, data_param, data_len: Rat, suffixes, grid=None):
                 ck.ob("P3", fq, "the bound becomes exactly the winning candidate's loss", loc, isinstance(after, Num) and after.r == L,
                       expected=lambda: str(L)[:200], found=lambda: repr(after)[:200])
                 kept = []
-                after_all = dict(getattr(lr, "local_after", {}))
-                after_all.update(lr.carried_after)
-                for y, v in after_all.items():
-                    if y == xname or v is lr.placeholders.get(y) or v is getattr(lr, "local_before", {}).get(y):
+                for y, (v, un) in fa.items():
+                    if y == xname or un:
                         continue
                     if y not in stable.get(lr.node.lineno, set()):
                         continue   # re-assigned on every iteration: a temporary, not an accumulator
@@ -224,6 +270,11 @@ def check_symbolic(ck, f, outs, data_param, data_len: Rat, suffixes, grid=None):
             # S4
             outer = [l2 for l2 in o.loops if l2.kind == "for" and xname in getattr(l2, "carried_before", {})]
             init = outer[0].carried_before[xname] if outer else None
+            if init is None and "." in xname:
+                base, fld = xname.split(".", 1)
+                recs0 = [l2.carried_before[base] for l2 in o.loops if l2.kind == "for" and base in getattr(l2, "carried_before", {})]
+                if recs0 and isinstance(recs0[0], ObjV) and recs0[0].constructed:
+                    init = recs0[0].fields.get(fld)
             ck.ob("P3", fq, "best loss starts at +inf or a positive constant bound", loc, _is_inf_or_pos_const(init), found=repr(init)[:80])
             v = o.value
             ok_ret = isinstance(v, Opaque) and any(v.desc in ("loop-carried %s" % y, "value of loop-local %s after the loop" % y,
